@@ -1725,7 +1725,7 @@ impl World {
             if let Some((l, n)) = self.split_track[mid] {
                 if po.old.is_none() {
                     // finished: the growing call counts as the first of the ceil(L/R)
-                    if n > (l + self.r - 1) / self.r && n > 0 && key_adding {
+                    if l > 0 && n > (l + self.r - 1) / self.r && key_adding {
                         self.fail(&["C03"], format!("a resize that parked {l} elements took {n} key-adding calls, more than ceil(L/R)"));
                     }
                     self.split_track[mid] = None;
